@@ -2,6 +2,7 @@ CONSTANTS
   N = 2
   MaxTasks = 1
   G = 1
+  Stops = 1
   Dev = {"StopJoinsWorkers"}
 SPECIFICATION Spec
 CHECK_DEADLOCK FALSE
